@@ -2,7 +2,7 @@
 # seed-run.sh <seed id> <property> : apply the seeded change to a scratch worktree of /repo's HEAD, run the property's quick
 # check against it with a scratch copy of /verif (so that /verif/evidence and /verif/replays keep the clean-tree results), undo.
 cd /verif
-wt=/tmp/seedrun_wt; vf=/tmp/seedrun_vf
+slot=${SEED_SLOT:-0}; wt=/tmp/seedrun_wt$slot; vf=/tmp/seedrun_vf$slot
 git -C /repo worktree remove --force $wt 2>/dev/null; git -C /repo worktree prune
 git -C /repo worktree add -q --detach $wt HEAD || exit 2
 trap 'git -C /repo worktree remove --force $wt >/dev/null 2>&1' EXIT
